@@ -523,6 +523,135 @@ class GroupedAxisLikeFresh(Contract):
             yield "answers-like-a-freshly-constructed-array", same(result, expected)
 
 
+def _producers(np, da):
+    """operations that RETURN an array (from a(x0, x1) with float / str labels and its 1-d companion b(x0))"""
+    return {
+        "transpose": lambda a, b: a.T,
+        "swapaxes": lambda a, b: a.swapaxes(0, 1),
+        "newaxis+squeeze": lambda a, b: a.newaxis("z", pos=1).squeeze("z"),
+        "newaxis-values": lambda a, b: a.newaxis("z", values=[7, 8], pos=0),
+        "ix-slice": lambda a, b: a.ix[::-1],
+        "ix-list": lambda a, b: a.ix[[0, 0]],
+        "label-slice": lambda a, b: a[a.axes[0].values.min():],
+        "take_axis": lambda a, b: a.take_axis([0], axis=1, indexing="position"),
+        "sort_axis": lambda a, b: a.sort_axis("x0"),
+        "sort_axis-reversed": lambda a, b: a.ix[::-1].sort_axis("x0"),
+        "reindex_axis": lambda a, b: a.reindex_axis(list(a.axes[0].values[::-1]) + [99.5], axis="x0"),
+        "flatten+unflatten": lambda a, b: a.flatten().unflatten(),
+        "reshape-group-ungroup": lambda a, b: a.reshape("x0,x1").reshape("x0", "x1"),
+        "group-transposed": lambda a, b: a.flatten(("x1", "x0")).unflatten().transpose("x0", "x1"),
+        "stack+take": lambda a, b: da.stack([a, a], axis="k", keys=["u", "v"]).take("v", axis="k"),
+        "concatenate": lambda a, b: da.concatenate([a, a.set_axis(a.axes[0].values + 1000., axis="x0", inplace=False)], axis="x0"),
+        "add-scalar": lambda a, b: a + 1,
+        "add-array": lambda a, b: a + b,
+        "cumsum": lambda a, b: a.cumsum(axis="x0"),
+        "diff-keepaxis": lambda a, b: a.diff(axis="x0", keepaxis=True),
+        "fillna": lambda a, b: a.fillna(0.),
+        "copy": lambda a, b: a.copy(),
+        "broadcast": lambda a, b: b.broadcast(a),
+        "align": lambda a, b: da.align([a, b])[0],
+        "set-dims": lambda a, b: (lambda c: (setattr(c, "dims", ("x1", "x0")), setattr(c, "dims", ("x0", "x1")), c)[2])(a.copy()),
+        "set_axis-values": lambda a, b: a.set_axis(a.axes[0].values * 2, axis="x0", inplace=False),
+        "axis-setitem-unsorts": lambda a, b: (lambda c: (c.axes[0].is_monotonic(), c.axes[0].__setitem__(0, 1e6), c)[2])(a.copy()),
+        "put-copy": lambda a, b: a.put(a.axes[0].values[0], -1., axis="x0", inplace=False),
+        "dataset-roundtrip": lambda a, b: (lambda ds: ds["v"])(da.Dataset(v=a, w=b)),
+        "dropna": lambda a, b: a.dropna(axis="x0", minvalid=0),
+        "interp-at-nodes": lambda a, b: a.interp_axis(a.sort_axis("x0").axes[0].values, axis="x0"),
+        "rollaxis": lambda a, b: a.rollaxis("x1").rollaxis("x0"),
+        "mask-compress": lambda a, b: a.compress_axis(np.ones(a.shape[0], dtype=bool), axis="x0"),
+    }
+
+
+def _consumers(np, da):
+    """further operations and queries; each returns something comparable (in-place ones return the modified array)"""
+    return {
+        "ix-slice": lambda r: r.ix[1:],
+        "first-label": lambda r: r[r.axes[0].values[0]],
+        "label-slice": lambda r: r[r.axes[0].values[0]:r.axes[0].values[-1]],
+        "mean": lambda r: r.mean(axis=0),
+        "transpose": lambda r: r.T,
+        "sort_axis": lambda r: r.sort_axis(0),
+        "reindex-own": lambda r: r.reindex_axis(r.axes[0].values[::-1], axis=0),
+        "add": lambda r: r + r,
+        "flatten": lambda r: r.flatten(),
+        "is_monotonic": lambda r: [bool(ax.is_monotonic()) for ax in r.axes],
+        "assign-in-place": lambda r: (r.__setitem__(r.axes[0].values[0], -5.), r)[1],
+        "take_axis": lambda r: r.take_axis([0], axis=r.ndim - 1, indexing="position"),
+        "copy": lambda r: r.copy(),
+        "to_json": lambda r: r.to_json(),
+    }
+
+
+class HistoryLikeFresh(Contract):
+    """BOUNDED STAND-IN ONLY (never counted as proved).  The statement's last sentence taken literally, one step deep: the array
+    RETURNED by each of 33 producing operations answers each of 14 further operations and queries (position and label
+    indexing, label slices, reductions, transposes, sorting, reindexing, arithmetic, flattening, monotonicity queries, an
+    in-place assignment, take_axis, copy, to_json) exactly like a freshly constructed array with the same values, labels, dims
+    and metadata -- same values, same labels, same dims, or the same exception type.  (The proved part of C05 -- well-formedness
+    and cache coherence as invariants -- is what makes this hold for histories of any length; this stand-in looks for state
+    the invariants do not name.)  Labels of length 1-3 / 1-2 in any order, NaN patterns of the family.  [C05]"""
+    target = "dimarray.core.dimarraycls:DimArray"
+    props = ("C05",)
+    native_only = True
+
+    def cases(self, tier):
+        import numpy as np
+        for name in _producers(np, None):
+            yield {"name": name, "producer": name}
+
+    def setup(self, S, case):
+        L0, L1 = S.array1d("lab0", "f"), S.array1d("lab1", "O")
+        assume_order(S, L0, "unique")
+        assume_order(S, L1, "unique")
+        S.assume(S.n(L0) >= 1, "non-empty")
+        S.assume(S.n(L1) >= 1, "non-empty")
+        return {"L": [L0, L1], "data": S.arraynd("data", "f", (S.n(L0), S.n(L1)))}
+
+    def call(self, fn, env):
+        import numpy as np
+        S = env["S"]
+        da = S.da
+        L0, L1 = np.asarray(env["L"][0], dtype=float), np.asarray(env["L"][1])
+        a = da.DimArray(np.array(env["data"], dtype=float), axes=[("x0", L0.copy()), ("x1", L1.copy())])
+        a.attrs["units"] = "K"
+        b = da.DimArray(np.arange(len(L0), dtype=float), axes=[("x0", L0.copy())])
+        return _producers(np, da)[env["case"]["producer"]](a, b)
+
+    def post(self, S, case, env, result):
+        import copy
+        import numpy as np
+        da = S.da
+        yield "is-dimarray", S.is_dimarray(result)
+        if not S.is_dimarray(result):
+            return
+
+        def fresh_of(r):
+            f = da.DimArray(np.array(r.values), axes=[(ax.name, np.array(ax.values)) for ax in r.axes])
+            f.attrs.update(copy.deepcopy(dict(r.attrs)))
+            for fa, ra in zip(f.axes, r.axes):
+                fa.attrs.update(copy.deepcopy(dict(ra.attrs)))
+            return f
+
+        def norm(x):
+            if S.is_dimarray(x):
+                v = np.asarray(x.values)
+                return ("da", tuple(x.dims), [[repr(t) for t in list(ax.values)] for ax in x.axes], v.shape, str(v.dtype.kind),
+                        [repr(t) for t in v.ravel().tolist()], sorted(dict(x.attrs).items(), key=repr).__repr__())
+            if isinstance(x, np.ndarray):
+                return ("nd", x.shape, [repr(t) for t in x.ravel().tolist()])
+            return ("py", repr(x))
+        if len(result.axes) == 0 or any(ax.size == 0 for ax in result.axes):
+            return
+        for cname, cons in _consumers(np, da).items():
+            outs = []
+            for obj in (copy.deepcopy(result) if cname == "assign-in-place" else result, fresh_of(result)):
+                try:
+                    outs.append(("ok", norm(cons(obj))))
+                except Exception as e:
+                    outs.append(("raises", type(e).__name__))
+            yield "then-%s:answers-like-a-freshly-constructed-array" % cname, outs[0] == outs[1]
+
+
 # ---- every DimArray RETURNED by an operation under contract is well-formed ---------------------------------------------
 def wf_only(cls):
     """the contract `cls` with its postcondition replaced by `every returned DimArray is well-formed` (same cases, same setup,
